@@ -93,7 +93,10 @@ def _scenario(draw, tier):
             long_lat_p=draw(st.sampled_from([0.0, 0.0, 0.05, 0.3])),
             pipe_cap=draw(st.sampled_from([None, None, 256, 4096])),
             speed_spread=draw(st.sampled_from([1.0, 4.0, 4.0, 20.0])),
+            cores=draw(st.sampled_from([None, None, 1, 2, 4])),
             clock_res=draw(st.sampled_from([0.0, 0.0, 0.0, 0.0156])) if timed else 0.0,
+            # forward jumps of the wall clock during a timed run: [after how many readings, fraction of the budget]
+            clock_jumps=[[draw(st.integers(1, 12)), draw(st.sampled_from([0.3, 0.9, 5.0]))]] if timed and draw(st.integers(0, 2)) == 0 else [],
         ))
     return dict(
         chain=kind, n=n, d=d, target=tspec, temps=temps, bounded=bounded,
@@ -293,6 +296,11 @@ def run_pt(sc, sched, canonical=False, want_trace=False):
         cfg.update(stall_p=sched["stall_p"], long_lat_p=sched["long_lat_p"], pipe_cap=sched["pipe_cap"],
                    speed_spread=sched["speed_spread"], clock_res=float(sched.get("clock_res") or 0.0))
     sim = kernel.Sim(sched["seed"] if not canonical else 0, cfg)
+    # the size of the machine is part of the environment: the canonical run has more cores than chains, a fault schedule
+    # may have fewer (1, 2, 4) - the result must not depend on it
+    c.cores = 64 if canonical else int(sched.get("cores") or 64)
+    if c.cores < sc["n"]:
+        stats["fault_fewer_cores_than_chains"] += 1
     mp = kernel.SimMP(sim)
     # timed-run progress watch: while run_for is in progress and its deadline has not passed, the main
     # task must not keep reading the clock without any posterior evaluation happening anywhere
@@ -306,9 +314,9 @@ def run_pt(sc, sched, canonical=False, want_trace=False):
                 watch["idle"] += 1
             else:
                 watch["idle"], watch["evals"] = 0, ev
-            if watch["idle"] > 1000 and sim.now < watch["deadline"]:
+            if watch["idle"] > 1000 and sim.wall() < watch["deadline"]:
                 raise seams.BusyWait("%d consecutive clock readings by the main process without a posterior evaluation in any "
-                                     "worker, %.3f simulated s before the deadline" % (watch["idle"], watch["deadline"] - sim.now))
+                                     "worker, %.3f simulated s before the deadline" % (watch["idle"], watch["deadline"] - sim.wall()))
         return real_time()
 
     sim.time = watched_time
@@ -396,8 +404,12 @@ def run_pt(sc, sched, canonical=False, want_trace=False):
                     expected = None if expected is None else [e + op[1] for e in expected]
                 elif name == "run_for":
                     out["timed"] = True
-                    t_call = sim.now
-                    watch.update(deadline=sim.now + op[1] * 60.0, idle=0, evals=-1)
+                    t_call = sim.wall()
+                    if sched.get("clock_jumps"):
+                        # forward jumps of the wall clock, counted in clock readings from the start of this timed run
+                        sim.cfg["clock_jumps"] = sorted([sim.stats["clock_reads"] + int(a), float(b) * op[1] * 60.0]
+                                                        for a, b in sched["clock_jumps"])
+                    watch.update(deadline=sim.wall() + op[1] * 60.0, idle=0, evals=-1)
                     try:
                         if (sc["seed"] + len(sc["ops"])) % 2:
                             L('run_for', pt.run_for, minutes=op[1], swap_interval=op[2])
@@ -405,7 +417,7 @@ def run_pt(sc, sched, canonical=False, want_trace=False):
                             L('run_for', pt.run_for, hours=op[1] / 60.0, swap_interval=op[2])
                     finally:
                         watch["deadline"] = None
-                    out.setdefault("timed_ops", []).append((op[1] * 60.0, sim.now - t_call))
+                    out.setdefault("timed_ops", []).append((op[1] * 60.0, sim.wall() - t_call))
                     expected = None
                 elif name == "return_chains":
                     got = L('return_chains', pt.return_chains)
@@ -491,6 +503,7 @@ def run_pt(sc, sched, canonical=False, want_trace=False):
         stats["fault_spurious_poll_timeout_long_latency"] += sim.stats["long_lat"]
         stats["fault_sender_blocked_on_full_pipe"] += sim.stats["send_blocked"]
         stats["fault_coarse_clock_equal_readings"] += sim.stats["coarse_equal"]
+        stats["fault_clock_jump"] += sim.stats["clock_jumps"]
         stats["fault_msgs_with_latency_jitter"] += sim.stats["msgs"]
         if sched["speed_spread"] > 1:
             stats["fault_unequal_process_speed_runs"] += 1
